@@ -109,7 +109,7 @@ class Finders:
     return None
 
   def __line_by_name(self, name):
-    for rt in self.RECORDS_WITH_NAME:
+    for rt in self.RECORDS_WITH_NAME + ["L", "C"]:
       if rt not in self._records:
         next
       found = self._records[rt].get(name, None)
